@@ -1,3 +1,85 @@
-import Driver.Common
-/- stub: model driver for C18 not built yet -/
-def main : IO Unit := Driver.lineLoop (fun _ => "unimplemented")
+import Driver.GenVL
+import ThriftVerif.Gen.DeepEq
+import ThriftVerif.Generated.C18
+/- model driver for C18: ops E / EN / EI / EA (generated DeepEqual), W (Write with the set check of the unit's
+   option set), V (the specification `valEq`, compared with the harness' Go oracle) -/
+namespace Driver.C18
+open Gen Driver.GenVL
+
+def F : Gen.DeepEq.Facts := Generated.C18.facts
+
+structure St where
+  ps : Progs := []
+  de : List String := []      -- units generated with gen_deep_equal
+
+/-- canonical bytes of a wire value: map entries sorted by encoded key (what refcodec.Canon does) -/
+partial def canonW : Wire.WVal → Wire.WVal
+  | .struct fs => .struct (fs.map fun (i, v) => (i, canonW v))
+  | .list t xs => .list t (xs.map canonW)
+  | .set t xs => .set t (xs.map canonW)
+  | .map k v kvs =>
+      let es := kvs.map fun (a, b) => (canonW a, canonW b)
+      let keyed := es.map fun (a, b) => (VL.hexEncode (Wire.encW a), (a, b))
+      let sorted := keyed.foldr (fun x acc => ins x acc) []
+      .map k v (sorted.map (·.2))
+  | w => w
+where ins (x : String × (Wire.WVal × Wire.WVal)) : List (String × (Wire.WVal × Wire.WVal)) → List (String × (Wire.WVal × Wire.WVal))
+  | [] => [x]
+  | y :: r => if x.1 ≤ y.1 then x :: y :: r else y :: ins x r
+
+def boolRes : Res Bool → String
+  | .ok true => "true" | .ok false => "false" | .panic => "panic" | .err => "bad-value"
+
+def two (rest : List String) : Option (GoVal × GoVal) :=
+  match parseVal rest with
+  | some (v1, r) => match parseVal r with
+    | some (v2, []) => some (v1, v2)
+    | _ => none
+  | none => none
+
+def step (st : St) (line : String) : St × String :=
+  let toks := VL.toks line
+  let st := match toks with
+    | "P" :: u :: _ :: opts => if optOn opts "gen_deep_equal" false then { st with de := u :: st.de } else st
+    | _ => st
+  match schemaLine st.ps toks with
+  | some (ps, out) => ({ st with ps := ps }, out)
+  | none =>
+    match toks with
+    | op :: key :: rest =>
+      match splitKey key with
+      | none => (st, "bad-op")
+      | some (u, i) =>
+        match st.ps.get u with
+        | none => (st, "bad-op")
+        | some P =>
+          let de := st.de.contains u
+          if op == "E" || op == "EN" then
+            match two rest with
+            | some (v1, v2) => (st, if de then boolRes (DeepEq.deepEqualTop F P i false v1 v2) else "nomethod")
+            | none => (st, "bad-op")
+          else if op == "EI" then
+            match parseVal rest with
+            | some (v, []) => (st, if de then boolRes (DeepEq.deepEqualTop F P i true v v) else "nomethod")
+            | _ => (st, "bad-op")
+          else if op == "EA" then
+            match parseVal rest with
+            | some (v, []) => (st, if de then boolRes (DeepEq.shallowCopyEq F P i v) else "nomethod")
+            | _ => (st, "bad-op")
+          else if op == "V" then
+            match two rest with
+            | some (v1, v2) => (st, if DeepEq.valEq P (.struct i) v1 v2 then "true" else "false")
+            | none => (st, "bad-op")
+          else if op == "W" then
+            match parseVal rest with
+            | some (v, []) =>
+                (st, match DeepEq.toW F P de (.struct i) v with
+                  | .ok w => "ok " ++ VL.hexEncode (Wire.encW (canonW w))
+                  | .err => "err" | .panic => "panic")
+            | _ => (st, "bad-op")
+          else (st, "bad-op")
+    | _ => (st, "bad-op")
+
+end Driver.C18
+
+def main : IO Unit := Driver.stateLoop ({} : Driver.C18.St) Driver.C18.step
